@@ -161,6 +161,37 @@ def stuck_scenario(viol, obs):
                 pass
 
 
+def lingering_scenario(viol, obs):
+    """a worker whose end run() has already registered (its target raised) but whose process cannot exit on its own"""
+    from pyworkers.pool import Pool, PoolError
+    from pyworkers.worker import WorkerType
+    pool = Pool(T.linger_then_raise, name='linger pool', close_timeout=1, retry=False)
+    workers = []
+    try:
+        with pool:
+            workers.append(pool.add_worker(WorkerType.PROCESS, name='L1'))
+            workers.append(pool.add_worker(WorkerType.PROCESS, name='L2'))
+            try:
+                pool.run(iter(range(6)))
+            except PoolError:
+                pass
+    except BaseException as e:     # noqa
+        viol.append(f'lingering scenario: unexpected {type(e).__name__}: {e}')
+    time.sleep(0.5)
+    left = sorted(w.pid for w in workers if pid_exists(w.pid))
+    obs['lingering_leftover_pids'] = left
+    for w in workers:
+        if w.is_alive():
+            viol.append(f'lingering scenario: worker {w.name} (pid {w.pid}) outlived its pool: its end had been registered by run(), but its process had not exited and close() did not terminate it')
+    if left:
+        viol.append(f'lingering scenario: child processes still present after the with-block: {left}')
+        for p in left:
+            try:
+                os.kill(p, signal.SIGKILL)
+            except OSError:
+                pass
+
+
 def main():
     sc = json.loads(sys.argv[1])
     viol, obs = [], {}
@@ -181,6 +212,7 @@ def main():
         restart_scenario(viol, obs)
     if not want or want.startswith('L1'):
         stuck_scenario(viol, obs)
+        lingering_scenario(viol, obs)
     print(json.dumps({'violates': bool(viol), 'violations': viol, 'observed': obs, 'scenario': sc}, default=repr))
     sys.stdout.flush()
     for c in mp.active_children():
